@@ -8,7 +8,7 @@ import (
 	"verif/harness/hx"
 )
 
-func init() { hx.Register("C42", Run) }
+func init() { registerGen(); hx.Register("C42", Run) }
 
 func Run(x *hx.Ctx) {
 	x.CoqModule("Corr.C42")
